@@ -61,19 +61,36 @@ func (h *h2Hist) opConnect(c *h2Client) {
 }
 
 func (h *h2Hist) opConnBind() {
-	// normally on a fresh data connection to a stream listener; sometimes over a packet listener (never allowed)
+	// which connection: a known id most of the time (preferring unbound ones)
+	idx := -1
+	if h.w.nextCid > 0 && h.rng.Intn(20) > 2 {
+		idx = h.rng.Intn(h.w.nextCid)
+		for try := 0; try < 4 && h.boundCid[idx]; try++ {
+			idx = h.rng.Intn(h.w.nextCid)
+		}
+	}
+	// on which listener: normally the one whose manager holds the connection. For a stream listener that is a
+	// fresh data connection; a packet listener can never splice a data connection (the request must be refused
+	// without side effects)
 	lid := -1
 	for i, l := range h.w.lis {
 		if l.stream {
 			lid = i
 		}
 	}
-	overUDP := lid < 0 || h.rng.Intn(12) == 0
+	if idx >= 0 {
+		if l, ok := h.cidLid[idx]; ok && h.rng.Intn(8) != 0 {
+			lid = l
+		}
+	}
+	if lid < 0 || h.rng.Intn(25) == 0 {
+		lid = 0
+	}
 	var c *h2Client
-	if overUDP {
+	if !h.w.lis[lid].stream {
 		a := h.cpool[h.rng.Intn(len(h.cpool))]
-		c = h.w.client(0, a.IP, a.Port)
-		h.addKey(0, c.srcAddr())
+		c = h.w.client(lid, a.IP, a.Port)
+		h.addKey(lid, c.srcAddr())
 	} else {
 		a := h.cpool[h.rng.Intn(3)]
 		h.dataPort++
@@ -85,27 +102,22 @@ func (h *h2Hist) opConnBind() {
 		h.addKey(lid, c.srcAddr())
 	}
 	k := c.key()
-	// whose connection: pick a known id most of the time
 	user := ""
 	cidS := "-"
 	var attrs []stun.Setter
-	switch r := h.rng.Intn(20); {
-	case r == 0:
-	case r == 1:
-		attrs = append(attrs, rawAttr{stun.AttrConnectionID, []byte{1, 2}})
-		cidS = "!"
-	case r == 2 || h.w.nextCid == 0:
-		attrs = append(attrs, proto.ConnectionID(0xFFFFFFF0))
-		cidS = "999999"
-	default:
-		idx := h.rng.Intn(h.w.nextCid)
-		for try := 0; try < 4 && h.boundCid[idx]; try++ { // prefer connections that are not bound yet
-			idx = h.rng.Intn(h.w.nextCid)
-		}
+	switch {
+	case idx >= 0:
 		real, _ := h.w.realCid(idx)
 		attrs = append(attrs, proto.ConnectionID(real))
 		cidS = fmt.Sprint(idx)
 		user = h.cidUser[idx]
+	case h.rng.Intn(3) == 0:
+	case h.rng.Intn(2) == 0:
+		attrs = append(attrs, rawAttr{stun.AttrConnectionID, []byte{1, 2}})
+		cidS = "!"
+	default:
+		attrs = append(attrs, proto.ConnectionID(0xFFFFFFF0))
+		cidS = "999999"
 	}
 	cr := h.mkCred(user)
 	h.tid++
